@@ -31,14 +31,22 @@ package client
 //
 // Assumed contracts (not verified here) of what checkMidHandlerContainer calls:
 //
+// (midElement.ReleaseMessage / GetMessage are proved under C12 below: the stored clone is guarded by the
+// element's own mutex.)
+//
+//@ guarded midElement.private.msg by midElement.private.Mutex
+//
 //@ func (*midElement) ReleaseMessage(cc *Conn)
-//@   trusted
 //@   requires m != nil
-//@   modifies m.private.msg
+//@   atomic [released-at-most-once] (old(m.private.msg) != nil ==> callCount(ReleaseMessage) == 1 && callArg(ReleaseMessage, 0, 1) == old(m.private.msg)) && (old(m.private.msg) == nil ==> notCalled(ReleaseMessage))
+//@   atomic [forgotten] m.private.msg == nil
 //
 //@ func (*midElement) GetMessage(cc *Conn) (msg *pool.Message, ok bool, err error)
-//@   trusted
 //@   requires m != nil
+//@   atomic [stored-stays] m.private.msg == old(m.private.msg)
+//@   atomic [released-means-none] old(m.private.msg) == nil ==> !ok && msg == nil && err == nil && notCalled(AcquireMessage)
+//@   atomic [hands-out-a-copy] ok ==> err == nil && msg != nil && msg != old(m.private.msg) && callCount(AcquireMessage) == 1 && msg == callRes(AcquireMessage, 0, 0) && callCount(Clone) == 1 && callArg(Clone, 0, 0) == old(m.private.msg) && callArg(Clone, 0, 1) == msg && notCalled(ReleaseMessage)
+//@   atomic [failed-copy-returned-to-pool] called(Clone) && callRes(Clone, 0, 0) != nil ==> !ok && msg == nil && err != nil && callCount(ReleaseMessage) == 1 && callArg(ReleaseMessage, 0, 1) == callRes(AcquireMessage, 0, 0)
 //@   ensures (ok ==> msg != nil && err == nil) && (!ok ==> msg == nil)
 //
 //@ func (*Conn) ReleaseMessage(m *pool.Message)
@@ -312,3 +320,24 @@ package client
 //@   ensures [duplicate-mid-not-sent] callRes(LoadOrStore, 0, 1) ==> err != nil && notCalled(WriteMessage) && notCalled(LoadAndDelete)
 //@   ensures [send-failure-removed] called(WriteMessage) && callRes(WriteMessage, 0, 0) != nil ==> err != nil && callCount(LoadAndDelete) == 1 && callArg(LoadAndDelete, 0, 1) == callRes(GetMessageID, 0, 0)
 //@   ensures [success-hands-over-cleanup] err == nil ==> cancel != nil && notCalled(LoadAndDelete) && callCount(WriteMessage) == 1
+
+// ---- C12: a pooled message has one owner at a time ---------------------------------------------------
+//
+// Processing of one received request: the request is released by the connection exactly once, as the
+// very last step, unless the application hijacked it (then never); the response message is acquired
+// once, released exactly once, after the handler returned and after anything was sent from it; nothing
+// is done with either message after its release.
+//
+//@ func (*Conn) setControlInformation(cm *coapNet.ControlMessage)
+//@   trusted
+//
+//@ func (*Conn) ProcessReceivedMessageWithHandler(req *pool.Message, handler config.HandlerFunc)
+//@   requires cc != nil && req != nil && sortedOpts(req.msg.Options) && cc.midHandlerContainer != nil
+//@   modifies anything
+//@   opaque-calls pure
+//@   ensures [response-acquired-once] callCount(AcquireMessage) == 1
+//@   ensures [handler-once] callCount(handler) == 1 && callArg(handler, 0, 1) == req && callSeq(AcquireMessage, 0) < callSeq(handler, 0)
+//@   ensures [request-released-last-unless-hijacked] callCount(IsHijacked) == 1 && callArg(IsHijacked, 0, 0) == req && (callRes(IsHijacked, 0, 0) ==> callCount(ReleaseMessage) == 1 && callSeq(IsHijacked, 0) == callsTotal() - 1) && (!callRes(IsHijacked, 0, 0) ==> callCount(ReleaseMessage) == 2 && callArg(ReleaseMessage, 1, 1) == req && callSeq(ReleaseMessage, 1) == callsTotal() - 1)
+//@   ensures [response-released-once-after-use] callArg(ReleaseMessage, 0, 1) == callRes(Message, callCount(Message) - 1, 0) && callSeq(handler, 0) < callSeq(ReleaseMessage, 0) && (called(writeMessageAsync) ==> callSeq(writeMessageAsync, 0) < callSeq(ReleaseMessage, 0)) && callSeq(ReleaseMessage, 0) < callSeq(IsHijacked, 0)
+//@   ensures [sends-only-modified] called(writeMessageAsync) ==> callArg(writeMessageAsync, 0, 1) == callRes(AcquireMessage, 0, 0)
+//@   param handler:
